@@ -1,8 +1,280 @@
-//! C20 — not built yet.
+//! C20 — DSV index independent of engine (DESIGN §4 C20).
 use crate::engine::*;
+use crate::gen::dsv::{self, Cfg};
+use serde_json::json;
+use succinctly::dsv::{build_index, build_index_scalar, simd, DsvConfig, DsvIndex};
 
-pub const RULE: &str = "not built";
+pub const RULE: &str = "texts of 0..1000 bytes (64 KiB thorough) over alphabets rich in the three special bytes: structured rows, byte soups, quote runs of 1..5 planted at offsets = 63/0/1 mod 64, quoted regions of 64..400 bytes full of delimiters/separators crossing 64-byte chunks, marker-free 64-byte words; configurations: standard, every ordered triple of distinct bytes from the pool {, ; | TAB SP \" ' \\ LF CR NUL a 0x80 0xFF} (all 2184 reached), random distinct triples. Reference dsv::build_index_scalar vs simd::sse2, simd::avx2, simd::bmi2 (CPU has both) and the dispatcher dsv::build_index: marker_count, row_count, the first len bits of both bit vectors, select1(k) for every k (+3 past the end), rank1 at every position 0..=len+1. Non-trivial: >=65 bytes with a quoted region that crosses a 64-byte chunk boundary; distinct by hash(text,cfg).";
+
+pub fn to_config(c: Cfg) -> DsvConfig {
+    DsvConfig { delimiter: c.delimiter, quote_char: c.quote, newline: c.newline }
+}
+
+type Builder = fn(&[u8], &DsvConfig) -> DsvIndex;
+
+pub fn engines() -> Vec<(&'static str, Builder)> {
+    let mut v: Vec<(&'static str, Builder)> = vec![("dispatch", build_index as Builder), ("sse2", simd::sse2::build_index_simd as Builder)];
+    // the avx2 / bmi2 entry points are safe fns whose SAFETY comment requires the caller to have
+    // verified the CPU features; only called when detected
+    if is_x86_feature_detected!("avx2") {
+        v.push(("avx2", simd::avx2::build_index_simd as Builder));
+        if is_x86_feature_detected!("bmi2") {
+            v.push(("bmi2", simd::bmi2::build_index_simd as Builder));
+        }
+    }
+    v
+}
+
+fn bit(words: &[u64], i: usize) -> bool {
+    words.get(i / 64).map(|w| (w >> (i % 64)) & 1 == 1).unwrap_or(false)
+}
+
+/// quoted region (toggle semantics) that contains a 64-byte chunk boundary
+fn quoted_region_crosses_chunk(text: &[u8], c: Cfg) -> bool {
+    let mut open: Option<usize> = None;
+    for (i, &b) in text.iter().enumerate() {
+        if b == c.quote {
+            match open {
+                None => open = Some(i),
+                Some(s) => {
+                    if s / 64 != i / 64 {
+                        return true;
+                    }
+                    open = None;
+                }
+            }
+        }
+    }
+    matches!(open, Some(s) if s / 64 != (text.len().saturating_sub(1)) / 64)
+}
+
+pub fn compare(text: &[u8], c: Cfg, eng: &[(&'static str, Builder)], full: bool, st: &mut Stats) -> Result<(), Fail> {
+    let config = to_config(c);
+    let reference = build_index_scalar(text, &config);
+    let len = text.len();
+    let info = || json!({"text_hex": hex(&text[..len.min(4096)]), "len": len, "text": show_bytes(text), "delimiter": c.delimiter, "quote": c.quote, "newline": c.newline});
+    let rl = reference.as_lightweight();
+    for (name, build) in eng {
+        let idx = build(text, &config);
+        let tag = |what: &str| format!("C20/{}/{}", name, what);
+        check_eq!(tag("marker_count"), reference.marker_count(), idx.marker_count(), {"case": info()});
+        check_eq!(tag("row_count"), reference.row_count(), idx.row_count(), {"case": info()});
+        check_eq!(tag("is_empty"), reference.is_empty(), idx.is_empty(), {"case": info()});
+        let il = idx.as_lightweight();
+        check_eq!(tag("text_len"), rl.text_len, il.text_len, {"case": info()});
+        // marked positions: the first len bits of both vectors
+        for i in 0..len {
+            if bit(&rl.markers, i) != bit(&il.markers, i) {
+                let inq = if bit(&rl.markers, i) { "missing-marker" } else { "extra-marker" };
+                fail!(tag(&format!("markers-bit/{}", inq)), {"case": info(), "position": i, "chunk_offset": i % 64});
+            }
+            if bit(&rl.newlines, i) != bit(&il.newlines, i) {
+                let inq = if bit(&rl.newlines, i) { "missing-newline" } else { "extra-newline" };
+                fail!(tag(&format!("newlines-bit/{}", inq)), {"case": info(), "position": i, "chunk_offset": i % 64});
+            }
+        }
+        st.evals(4 + 2 * len as u64);
+        if full {
+            let mc = reference.marker_count();
+            for k in 0..mc + 3 {
+                check_eq!(tag("markers_select1"), reference.markers_select1(k), idx.markers_select1(k), {"case": info(), "k": k});
+            }
+            let nc = reference.row_count();
+            for k in 0..nc + 3 {
+                check_eq!(tag("newlines_select1"), reference.newlines_select1(k), idx.newlines_select1(k), {"case": info(), "k": k});
+            }
+            for i in 0..=len + 1 {
+                check_eq!(tag("markers_rank1"), reference.markers_rank1(i), idx.markers_rank1(i), {"case": info(), "i": i});
+                check_eq!(tag("newlines_rank1"), reference.newlines_rank1(i), idx.newlines_rank1(i), {"case": info(), "i": i});
+            }
+            for k in [usize::MAX, usize::MAX / 2, 1 << 32] {
+                check_eq!(tag("markers_select1"), reference.markers_select1(k), idx.markers_select1(k), {"case": info(), "k": k});
+                check_eq!(tag("markers_rank1"), reference.markers_rank1(k), idx.markers_rank1(k), {"case": info(), "i": k});
+                check_eq!(tag("newlines_select1"), reference.newlines_select1(k), idx.newlines_select1(k), {"case": info(), "k": k});
+                check_eq!(tag("newlines_rank1"), reference.newlines_rank1(k), idx.newlines_rank1(k), {"case": info(), "i": k});
+            }
+            st.evals((mc + nc + 6 + 2 * (len + 2) + 12) as u64);
+        }
+    }
+    Ok(())
+}
+
+pub fn classify(text: &[u8], c: Cfg, kind: dsv::TextKind, cfg_kind: &str, st: &mut Stats) {
+    let crosses = quoted_region_crosses_chunk(text, c);
+    let nt = text.len() >= 65 && crosses;
+    if nt {
+        st.nontrivial(mix64(hash_bytes(text) ^ ((c.delimiter as u64) << 16 | (c.quote as u64) << 8 | c.newline as u64)));
+    }
+    st.class_if(nt, "nontrivial");
+    st.class(&format!("text-{:?}", kind));
+    st.class(cfg_kind);
+    st.class_if(c.quote != b'"', "quote-not-doublequote");
+    st.class_if(c.newline != b'\n', "newline-not-LF");
+    st.class_if(c.delimiter >= 0x80 || c.quote >= 0x80 || c.newline >= 0x80, "special-byte>=0x80");
+    st.class_if(c.delimiter == 0 || c.quote == 0 || c.newline == 0, "special-byte-NUL(tail padding value)");
+    st.class_if(text.iter().enumerate().any(|(i, &b)| b == c.quote && i % 64 == 63), "quote-at-bit-63");
+    st.class_if(text.iter().enumerate().any(|(i, &b)| b == c.quote && i % 64 == 0 && i > 0), "quote-at-bit-0-of-later-chunk");
+    let nq = text.iter().filter(|&&b| b == c.quote).count();
+    st.class_if(nq % 2 == 1, "unbalanced-quotes");
+    st.class_if(text.len() > 64 && text.len() % 64 != 0, "len>64-with-partial-last-chunk");
+    st.class_if(text.len() % 64 == 0 && !text.is_empty(), "len-multiple-of-64");
+    st.class_if(text.len() >= 192, "len>=3-chunks");
+    // odd number of quotes inside one 64-byte chunk -> the carry flips across the boundary
+    let carry_flip = text.chunks(64).take(text.len() / 64).any(|ch| ch.iter().filter(|&&b| b == c.quote).count() % 2 == 1);
+    st.class_if(carry_flip, "chunk-with-odd-quote-count(carry flips)");
+    st.size(text.len());
+}
 
 pub fn run(cx: &mut Ctx) {
-    cx.infra("check not built");
+    cx.assume("differential only: the in-repo scalar parser is the reference the statement names (its agreement with an independent splitter model is C21's business)");
+    cx.assume("host CPU has AVX2 and BMI2, so all four x86 engines run; dispatch = bmi2 when has_fast_bmi2() else avx2; NEON/SVE2 are out of reach on x86_64");
+    let eng = engines();
+    cx.extra.insert("engines".into(), json!(eng.iter().map(|e| e.0).collect::<Vec<_>>()));
+    if eng.len() < 4 {
+        cx.note(format!("only {} of 4 engines available on this CPU", eng.len()));
+    }
+
+    for (name, v) in cx.replays.clone() {
+        if v["kind"] == "input" {
+            let t = unhex(v["input"]["text_hex"].as_str().unwrap_or(""));
+            let g = |k: &str| v["input"][k].as_u64().unwrap_or(0) as u8;
+            let c = Cfg { delimiter: g("delimiter"), quote: g("quote"), newline: g("newline") };
+            let mut st = Stats::default();
+            let r = if c.delimiter != c.quote && c.quote != c.newline && c.delimiter != c.newline { compare(&t, c, &eng, true, &mut st).err() } else { None };
+            cx.replay_outcome(&name, r);
+        }
+    }
+
+    let max = if cx.tier == Tier::Quick { 1000 } else { 4000 };
+    let eng1 = eng.clone();
+    cx.check(
+        "engines-vs-scalar",
+        RULE,
+        Budget { quick: 800_000, thorough: 20_000_000, max_len: 9000 },
+        move |u, st| {
+            let (c, cfg_kind) = dsv::cfg(u);
+            let (t, kind) = dsv::text(u, c, max);
+            classify(&t, c, kind, cfg_kind, st);
+            st.sample(&format!("{:?}", kind), || json!({"len": t.len(), "cfg": [c.delimiter, c.quote, c.newline], "head": show_bytes(&t[..t.len().min(100)])}));
+            st.describe(|| json!({"text_hex": hex(&t), "delimiter": c.delimiter, "quote": c.quote, "newline": c.newline}));
+            compare(&t, c, &eng1, true, st)
+        },
+    );
+    for cl in [
+        "nontrivial",
+        "quote-at-bit-63",
+        "quote-at-bit-0-of-later-chunk",
+        "unbalanced-quotes",
+        "chunk-with-odd-quote-count(carry flips)",
+        "len>64-with-partial-last-chunk",
+        "len-multiple-of-64",
+        "cfg-pool-triple",
+        "cfg-random-triple",
+        "special-byte>=0x80",
+        "special-byte-NUL(tail padding value)",
+        "text-LongQuoted",
+        "text-QuoteHeavy",
+    ] {
+        cx.require_class("engines-vs-scalar", cl, 50);
+    }
+
+    // every ordered triple of distinct pool bytes, each on a fixed family of adversarial texts (complete family)
+    let eng2 = eng.clone();
+    cx.exhaustive(
+        "every-pool-triple",
+        "all 2184 ordered triples of distinct pool bytes x 8 deterministic texts built from the triple (quotes at 62..65, 127/128, quoted region spanning two chunks, odd/even quote runs, specials in the padded tail)",
+        true,
+        move |shard, nshards, st| {
+            for k in 0..dsv::pool_triples() {
+                if k % nshards != shard {
+                    continue;
+                }
+                let c = dsv::pool_triple(k);
+                for t in fixed_texts(c) {
+                    compare(&t, c, &eng2, true, st)?;
+                    st.cases += 1;
+                    if t.len() >= 65 && quoted_region_crosses_chunk(&t, c) {
+                        st.nontrivial(mix64(hash_bytes(&t) ^ k as u64));
+                    }
+                }
+                st.class("triples");
+            }
+            Ok(())
+        },
+    );
+
+    if cx.tier == Tier::Thorough {
+        let eng3 = eng.clone();
+        cx.check(
+            "engines-vs-scalar-large",
+            "as engines-vs-scalar with texts up to 64 KiB built by tiling generated pieces; bit vectors compared in full, rank/select sampled",
+            Budget { quick: 0, thorough: 60_000, max_len: 9000 },
+            move |u, st| {
+                let (c, cfg_kind) = dsv::cfg(u);
+                let target = u.range(4000, 65536);
+                let mut t: Vec<u8> = Vec::with_capacity(target + 4096);
+                let mut kind = dsv::TextKind::Soup;
+                while t.len() < target {
+                    let (piece, k) = dsv::text(u, c, 1500);
+                    kind = k;
+                    let reps = 1 + u.below(6);
+                    for _ in 0..reps {
+                        t.extend_from_slice(&piece);
+                        if u.ratio(1, 3) {
+                            t.push(c.quote);
+                        }
+                    }
+                    if piece.is_empty() {
+                        t.push(b'x');
+                    }
+                }
+                classify(&t, c, kind, cfg_kind, st);
+                st.describe(|| json!({"text_hex": hex(&t), "delimiter": c.delimiter, "quote": c.quote, "newline": c.newline}));
+                compare(&t, c, &eng3, false, st)
+            },
+        );
+    }
+}
+
+fn fixed_texts(c: Cfg) -> Vec<Vec<u8>> {
+    let (d, q, n) = (c.delimiter, c.quote, c.newline);
+    let o = {
+        let mut b = b'x';
+        while b == d || b == q || b == n {
+            b += 1;
+        }
+        b
+    };
+    let mut out = vec![];
+    // 1: quote at 63, specials after, closing quote at 64
+    for (open, close) in [(63usize, 64usize), (62, 63), (0, 127), (63, 128), (64, 191), (1, 65)] {
+        let mut t = vec![o; 200];
+        for i in (0..200).step_by(3) {
+            t[i] = if i % 2 == 0 { d } else { n };
+        }
+        t[open] = q;
+        t[close] = q;
+        out.push(t);
+    }
+    // 7: runs of quotes of length 1..5 ending at chunk boundaries, unbalanced overall
+    let mut t = vec![];
+    for run in 1..=5usize {
+        while t.len() % 64 != 64 - run {
+            t.push(if t.len() % 5 == 0 { d } else if t.len() % 7 == 0 { n } else { o });
+        }
+        for _ in 0..run {
+            t.push(q);
+        }
+        t.push(d);
+        t.push(n);
+    }
+    out.push(t);
+    // 8: partial last chunk ending inside quotes with specials up to the last byte
+    let mut t = vec![o; 70];
+    t[60] = q;
+    for i in 61..70 {
+        t[i] = if i % 2 == 0 { d } else { n };
+    }
+    out.push(t);
+    out
 }
